@@ -337,6 +337,14 @@ func (r *rewriter) stmt(s ast.Stmt) []ast.Stmt {
 		r.exprs(st.Call)
 		return []ast.Stmt{st}
 	case *ast.ExprStmt:
+		// x.Do(f) on a sync.Once (by name: every Once of this code base is called ...Once)
+		if ce, ok := st.X.(*ast.CallExpr); ok && len(ce.Args) == 1 {
+			if se, ok := ce.Fun.(*ast.SelectorExpr); ok && se.Sel.Name == "Do" && isOnceName(se.X) {
+				r.exprs(ce.Args[0])
+				r.used = true
+				return []ast.Stmt{&ast.ExprStmt{X: call("OnceDo", r.site("once"), &ast.UnaryExpr{Op: token.AND, X: se.X}, ce.Args[0])}}
+			}
+		}
 		if recv, name, ok := methodCall(st); ok {
 			switch name {
 			case "Lock":
@@ -394,6 +402,18 @@ func (r *rewriter) stmt(s ast.Stmt) []ast.Stmt {
 	default:
 		return []ast.Stmt{s}
 	}
+}
+
+// isOnceName: the receiver of a Do call is a sync.Once if its (last) name says so.
+func isOnceName(e ast.Expr) bool {
+	name := ""
+	switch v := e.(type) {
+	case *ast.Ident:
+		name = v.Name
+	case *ast.SelectorExpr:
+		name = v.Sel.Name
+	}
+	return strings.HasSuffix(name, "Once") || strings.HasSuffix(name, "once")
 }
 
 func funcName(fd *ast.FuncDecl) string {
